@@ -92,6 +92,9 @@ func parseScheduleMap(
 		case scheduleKeyRestart:
 			targets = restarts
 
+		default:
+			return fmt.Errorf("%w: unknown key %q", errInvalidSchedule, key)
+
 		}
 
 		for _, v := range values {
